@@ -204,6 +204,26 @@ func (b *backend) real(k string) string {
 	return k
 }
 
+func (b *backend) canonical(k string) string {
+	if k == b.ixActual {
+		return keyIx
+	}
+	return k
+}
+
+// canonicalAll rewrites the actual index key name inside rendered strings.
+func (b *backend) canonicalAll(xs []string) []string {
+	if b.ixActual == keyIx {
+		return xs
+	}
+	out := make([]string, len(xs))
+	for i, x := range xs {
+		out[i] = strings.ReplaceAll(x, b.ixActual, keyIx)
+	}
+	sort.Strings(out)
+	return out
+}
+
 func (b *backend) flush() {
 	for _, mr := range b.mrs {
 		mr.FlushAll()
